@@ -302,6 +302,26 @@ def fcc_cases(rnd, n=200):
         yield {"lines": L(line, " NOP"), "tag": "fcc-odd", "meta": {"mn": "FCCODD", "stmt": 0}}
 
 
+def line_matrix(rnd, sample=None):
+    """the line scanner on its own: label x blanks x mnemonic x blanks x operand x what follows - every combination (a product of
+    small sets, sampled in the quick tier); each line is assembled as a one-statement program (after a label-defining line where
+    the operand needs one) and compared field by field with the model through the printed listing"""
+    LABELS = ["", "A", "AB1", "@", "A@B", "_", "A_1", "1A", "a", "A-B", "A.B"]
+    WS = [" ", "\t", "   ", " \t "]
+    MNS = ["NOP", "nop", "Nop", "LDA", "lda", "FCC", "fcc", "FCB", "JMP", "BRA", "EQU", "END", "NOPE", "", "LD A"]
+    OPS = ["", "#1", "$10", "L", "L+1", ",X", "5,Y", "[L]", "/a b/", "/a;b/", "\"x\"", "'A", "1,2", "#$1;", "L;c", "A,B"]
+    TAILS = ["", " ", ";c", " ;c", " c d", ";;c", " ; c ; d", "\t;", " ;", "  x  "]
+    for lab in LABELS:
+        for mn in MNS:
+            for op in OPS:
+                for tail in TAILS:
+                    if sample is not None and rnd.random() > sample:
+                        continue
+                    w1, w2 = rnd.choice(WS), rnd.choice(WS)
+                    line = lab + w1 + mn + (w2 + op if op or tail else "") + tail
+                    yield {"lines": L("L RMB 2", line), "tag": "scan", "meta": {}}
+
+
 def branch_sweep(rnd, thorough=False):
     """short/long branches and label,PCR operands at distances around the limits (C03, C13)"""
     D8 = [0, 1, 100, 124, 125, 126, 127, 128, 129, 130, 131, 200]
